@@ -5,6 +5,7 @@ package main
 import (
 	"fmt"
 	"go/token"
+	"go/types"
 	"sort"
 	"strings"
 
@@ -12,7 +13,7 @@ import (
 )
 
 func init() {
-	register("C13", "Decides the structural conditions of replica-set identity and clean-up: (R1) every Create(ExtendedDaemonSetReplicaSet) reachable from the ExtendedDaemonSet Reconcile is reached only under `X == nil`, X being a loop variable that, in a loop over every index of the Items of a list object whose List call's error was checked, is tested on every iteration path with IsReplicaSetUpToDate(item, ds), becomes provably non-nil on every path where the test is true and is left unchanged where it is false, the loop having no other exit that reaches the creation, and ds being the very object the new replica set is built from; (R2) hash chain: the constructor of the created replica set copies ds.Spec.Template, writes the template-hash annotation and Spec.TemplateGeneration from one call of the hash function over &ds.Spec.Template (on every success path of the stamping function), and the creation is reached only when that constructor returned no error; IsReplicaSetUpToDate returns true only when the same annotation key of the replica set equals the hash of &ds.Spec.Template; the hash function feeds its hash with exactly encoding/json.Marshal of its argument; pods are stamped from and compared with Spec.TemplateGeneration under the same key (shared with C10.R4); (R3) every Delete(ExtendedDaemonSetReplicaSet) is reached, on every path of its loop iteration, only with current != nil, name != current.Name, (upToDate == nil or name != upToDate.Name) and a true result of a predicate that returns true only for a nil object or when desired+current+ready+available are all zero; at the call site `current` is the result of the promotion decision (the value status.activeReplicaSet is stored from) and `upToDate` is the R1 variable; (R4) the PodTemplate constructor takes name, namespace and a copy of Spec.Template from the ExtendedDaemonSet and stamps the hash of &eds.Spec.Template under the hash key on every success path; the object handed to Create/Update is that constructor's result for the reconciled object; the update is skipped (nil error without Update) only when the stored annotation equals the computed hash of the same object.", runC13)
+	register("C13", "Decides the structural conditions of replica-set identity and clean-up: (R1) every Create(ExtendedDaemonSetReplicaSet) reachable from the ExtendedDaemonSet Reconcile is reached only under `X == nil`, X being a loop variable that, in a loop over every index of the Items of a list object whose List call's error was checked, is tested on every iteration path with IsReplicaSetUpToDate(item, ds), becomes provably non-nil on every path where the test is true and is left unchanged where it is false, the loop having no other exit that reaches the creation, and ds being the very object the new replica set is built from; (R2) hash chain: the constructor of the created replica set copies ds.Spec.Template, writes the template-hash annotation and Spec.TemplateGeneration from one call of the hash function over &ds.Spec.Template (on every success path of the stamping function), and the creation is reached only when that constructor returned no error; IsReplicaSetUpToDate returns true only when the same annotation key of the replica set equals the hash of &ds.Spec.Template; the hash function feeds its hash with exactly encoding/json.Marshal of its argument; pods are stamped from and compared with Spec.TemplateGeneration under the same key (shared with C10.R4); (R3) every Delete(ExtendedDaemonSetReplicaSet) is reached, on every path of its loop iteration, only with current != nil, name != current.Name, (upToDate == nil or name != upToDate.Name) and a true result of a predicate that returns true only for a nil object or when desired+current+ready+available are all zero; at the call site `current` is the result of the promotion decision (the value status.activeReplicaSet is stored from) and `upToDate` is the R1 variable; (R4) the PodTemplate constructor takes name, namespace and a copy of Spec.Template from the ExtendedDaemonSet and stamps the hash of &eds.Spec.Template under the hash key on every success path; the object handed to Create/Update is that constructor's result for the reconciled object; the update is skipped (nil error without Update) only when the stored annotation equals the computed hash of the same object. In R2 and R4 the constructor may be wrapped (a function that returns the inner constructor's object unchanged in identity, Spec/Template and hash annotation, and only when the inner call reported no error or together with that error); the annotation may be written by a map update or by installing a fresh map literal that holds the key; in R4 the hash may be handed to the constructor, provided that at every call it is the hash of the template of the ExtendedDaemonSet handed in with it; in R3 the all-zero predicate may delegate to a boolean repository helper over (a part of) the replica set, which then counts for the counters that are zero on every path on which it returns true.", runC13)
 }
 
 type c13Ctx struct {
@@ -36,7 +37,7 @@ func runC13(r *Run) {
 	r.RuleDoc("C13.R4", "PodTemplate mirror: name/namespace/template copy/hash from the ExtendedDaemonSet; update skipped only on equal hash")
 	r.Floor("C13.R1", 6)
 	r.Floor("C13.R2", 9)
-	r.Floor("C13.R3", 6)
+	r.Floor("C13.R3", 5) // delete guards, roles, status store, and the predicate's nil and all-zero returns (further returns can be merged)
 	r.Floor("C13.R4", 6)
 	r.NotCovered("histories of template edits and interleavings of reconciles (two reconciles racing on a stale cache can both see no match); collisions of the MD5 hash; that the API server persists the annotation; the 2-minute retention of failed canaries (C07); the promotion decision itself (C05)")
 
@@ -530,8 +531,119 @@ func (c *c13Ctx) loop(fn *ssa.Function, ff *FuncFacts, x *ssa.Phi, sites []*ssa.
 }
 
 // constructor checks R2(a) on the function that builds the created replica set.
+// c13WrappedCtor: w returns, as its object, result #0 of one call of a repository function that is
+// given w's ExtendedDaemonSet: w wraps the real constructor. The wrapper must hand the object on
+// unchanged in what the rules look at (identity, Spec / Template, the hash annotation) and only when
+// the inner call reported no error.
+func c13WrappedCtor(r *Run, w *ssa.Function, dsIdx int, key string) (inner *ssa.Function, innerDs int, why string) {
+	var call *ssa.Call
+	var obj ssa.Value
+	for _, b := range w.Blocks {
+		ret := returnOf(b)
+		if ret == nil || len(ret.Results) == 0 {
+			continue
+		}
+		for _, o := range origins(ret.Results[0]) {
+			if isNilConst(o) {
+				continue
+			}
+			var cl *ssa.Call
+			switch x := o.(type) {
+			case *ssa.Extract:
+				if x.Index == 0 {
+					cl, _ = x.Tuple.(*ssa.Call)
+				}
+			case *ssa.Call:
+				cl = x
+			}
+			if cl == nil || (call != nil && call != cl) {
+				return nil, 0, ""
+			}
+			call, obj = cl, o
+		}
+	}
+	if call == nil {
+		return nil, 0, ""
+	}
+	inner = staticCallee(&call.Call)
+	if inner == nil || !r.Prog.IsRuleSite(inner) || len(inner.Blocks) == 0 {
+		return nil, 0, ""
+	}
+	innerDs = -1
+	for i, a := range call.Call.Args {
+		if unwrap(a) == ssa.Value(w.Params[dsIdx]) {
+			innerDs = i
+		}
+	}
+	if innerDs < 0 {
+		return inner, 0, shortFunc(w) + " does not hand its ExtendedDaemonSet to " + shortFunc(inner)
+	}
+	// unchanged
+	for _, b := range w.Blocks {
+		for _, in := range b.Instrs {
+			if st, ok := in.(*ssa.Store); ok {
+				if root, p := deepPath(st.Addr); root == obj {
+					if sp := stripMeta(p); len(sp) > 0 && (sp[0] == "Spec" || sp[0] == "Template" || sp[0] == "Name" || sp[0] == "Namespace" || sp[0] == "Annotations") {
+						return inner, 0, shortFunc(w) + " rewrites " + strings.Join(sp, ".") + " of the object " + shortFunc(inner) + " built"
+					}
+				}
+			}
+		}
+	}
+	if ws, _ := annotationWrites(r.Prog, w, func(v ssa.Value) bool { return v == obj }, key); len(ws) > 0 {
+		return inner, 0, shortFunc(w) + " rewrites the hash annotation of the object " + shortFunc(inner) + " built"
+	}
+	// only after success
+	if inner.Signature.Results().Len() == 2 {
+		paths, _, ok := funcPaths(w, 5000)
+		r.paths += len(paths)
+		if !ok {
+			return inner, 0, "undecided: path cap exceeded"
+		}
+		for _, p := range paths {
+			ret := returnOf(p.Blocks[len(p.Blocks)-1])
+			if ret == nil || isNilConst(p.Resolve(ret.Results[0])) {
+				continue
+			}
+			// the inner error is handed on with the object: the wrapper's caller tests it
+			if len(ret.Results) == 2 {
+				if ex, isE := p.Resolve(ret.Results[1]).(*ssa.Extract); isE && ex.Index == 1 && ex.Tuple == ssa.Value(call) {
+					continue
+				}
+			}
+			if !p.Has(true, func(v ssa.Value, _ string) bool {
+				return isNilCompareOf(v, func(x ssa.Value) bool {
+					for _, o := range origins(x) {
+						ex, isE := o.(*ssa.Extract)
+						if !isE || ex.Index != 1 || ex.Tuple != ssa.Value(call) {
+							return false
+						}
+					}
+					return true
+				})
+			}) {
+				return inner, 0, shortFunc(w) + " returns the object although " + shortFunc(inner) + " reported an error: [" + shortFacts(p) + "]"
+			}
+		}
+	}
+	return inner, innerDs, ""
+}
+
 func (c *c13Ctx) constructor(ctor *ssa.Function, dsIdx int) {
 	r := c.r
+	for depth := 0; depth < 3; depth++ {
+		inner, innerDs, why := c13WrappedCtor(r, ctor, dsIdx, c.md5Key)
+		if inner == nil {
+			break
+		}
+		if why != "" {
+			for _, cc := range []string{"template copy", "hash stamp"} {
+				r.Undecided("C13.R2", cc, r.Prog.Pos(ctor.Pos()), shortFunc(ctor), why)
+			}
+			return
+		}
+		ctor, dsIdx = inner, innerDs
+	}
 	sf := shortFunc(ctor)
 	pos := r.Prog.Pos(ctor.Pos())
 	ds := ctor.Params[dsIdx]
@@ -1268,6 +1380,121 @@ func (c *c13Ctx) rolesIn(fn *ssa.Function, site *decisionSite, current, upToDate
 
 var c13ZeroSeen = map[*ssa.Function]bool{}
 
+// c13BoolHelper: the call is a static call of a repository function with a body and one boolean result.
+func c13BoolHelper(r *Run, call *ssa.Call) *ssa.Function {
+	cal := staticCallee(&call.Call)
+	if cal == nil || !r.Prog.IsRuleSite(cal) || len(cal.Blocks) == 0 || cal.Signature.Results().Len() != 1 {
+		return nil
+	}
+	if b, ok := cal.Signature.Results().At(0).Type().Underlying().(*types.Basic); !ok || b.Kind() != types.Bool {
+		return nil
+	}
+	return cal
+}
+
+// c13ZeroFields: the status counters of the replica set that are zero whenever the condition value v is
+// true. obj stands for the replica set or a part of it: the field path from the replica set to obj is
+// prefix. v is a `sum == 0` comparison over loads of obj's fields, or the verdict of a repository
+// helper that is handed (a part of) obj: then the counters that are zero on EVERY path on which the
+// helper returns true.
+func c13ZeroFields(r *Run, v ssa.Value, obj ssa.Value, prefix []string, depth int) map[string]bool {
+	out := map[string]bool{}
+	if call, isCall := v.(*ssa.Call); isCall {
+		H := c13BoolHelper(r, call)
+		if H == nil || depth > 3 {
+			return out
+		}
+		for i, a := range call.Call.Args {
+			root, p := accessPath(unwrap(a))
+			if root != obj || i >= len(H.Params) {
+				continue
+			}
+			if _, isPtr := H.Params[i].Type().Underlying().(*types.Pointer); !isPtr {
+				continue
+			}
+			sub := append(append([]string{}, prefix...), p...)
+			paths, _, ok := funcPaths(H, 5000)
+			r.paths += len(paths)
+			if !ok {
+				continue
+			}
+			var inter map[string]bool
+			for _, hp := range paths {
+				ret := returnOf(hp.Blocks[len(hp.Blocks)-1])
+				res := hp.Resolve(ret.Results[0])
+				if b, isC := constBool(res); isC && !b {
+					continue
+				}
+				proven := map[string]bool{}
+				for _, f := range hp.Facts {
+					if f.Pol {
+						for fld := range c13ZeroFields(r, f.V, H.Params[i], sub, depth+1) {
+							proven[fld] = true
+						}
+					}
+				}
+				if _, isC := constBool(res); !isC {
+					bo, isB := res.(*ssa.BinOp)
+					_, isCl := res.(*ssa.Call)
+					if (isB && bo.Op == token.EQL) || isCl {
+						for fld := range c13ZeroFields(r, res, H.Params[i], sub, depth+1) {
+							proven[fld] = true
+						}
+					}
+				}
+				if inter == nil {
+					inter = proven
+				} else {
+					for k := range inter {
+						if !proven[k] {
+							delete(inter, k)
+						}
+					}
+				}
+			}
+			for k := range inter {
+				out[k] = true
+			}
+		}
+		return out
+	}
+	bo, isB := v.(*ssa.BinOp)
+	if !isB || (bo.Op != token.EQL && bo.Op != token.NEQ) {
+		return out
+	}
+	var sum ssa.Value
+	if z, isC := constInt(bo.Y); isC && z == 0 {
+		sum = bo.X
+	} else if z, isC := constInt(bo.X); isC && z == 0 {
+		sum = bo.Y
+	}
+	if sum == nil {
+		return out
+	}
+	okAll := true
+	var leaves func(v ssa.Value)
+	leaves = func(v ssa.Value) {
+		v = unwrap(v)
+		if b, isAdd := v.(*ssa.BinOp); isAdd && b.Op == token.ADD {
+			leaves(b.X)
+			leaves(b.Y)
+			return
+		}
+		root, p := accessPath(v)
+		full := append(append([]string{}, prefix...), p...)
+		if _, isLoad := v.(*ssa.UnOp); isLoad && root == obj && len(full) == 2 && full[0] == "Status" {
+			out[full[1]] = true
+			return
+		}
+		okAll = false
+	}
+	leaves(sum)
+	if !okAll {
+		return map[string]bool{}
+	}
+	return out
+}
+
 // c13ZeroPredicate: true only for a nil object or when all four counters are zero.
 func c13ZeroPredicate(r *Run, fn *ssa.Function) {
 	sf := shortFunc(fn)
@@ -1284,44 +1511,7 @@ func c13ZeroPredicate(r *Run, fn *ssa.Function) {
 		return
 	}
 	want := []string{"Available", "Current", "Desired", "Ready"}
-	// fields proven zero by a condition value
-	zeroFields := func(v ssa.Value) map[string]bool {
-		out := map[string]bool{}
-		bo, isB := v.(*ssa.BinOp)
-		if !isB || (bo.Op != token.EQL && bo.Op != token.NEQ) {
-			return out
-		}
-		var sum ssa.Value
-		if z, isC := constInt(bo.Y); isC && z == 0 {
-			sum = bo.X
-		} else if z, isC := constInt(bo.X); isC && z == 0 {
-			sum = bo.Y
-		}
-		if sum == nil {
-			return out
-		}
-		okAll := true
-		var leaves func(v ssa.Value)
-		leaves = func(v ssa.Value) {
-			v = unwrap(v)
-			if b, isAdd := v.(*ssa.BinOp); isAdd && b.Op == token.ADD {
-				leaves(b.X)
-				leaves(b.Y)
-				return
-			}
-			root, p := accessPath(v)
-			if _, isLoad := v.(*ssa.UnOp); isLoad && root == ssa.Value(ers) && len(p) == 2 && p[0] == "Status" {
-				out[p[1]] = true
-				return
-			}
-			okAll = false
-		}
-		leaves(sum)
-		if !okAll {
-			return map[string]bool{}
-		}
-		return out
-	}
+	zeroFields := func(v ssa.Value) map[string]bool { return c13ZeroFields(r, v, ers, nil, 0) }
 	n := 0
 	for _, p := range paths {
 		ret := returnOf(p.Blocks[len(p.Blocks)-1])
@@ -1344,9 +1534,13 @@ func c13ZeroPredicate(r *Run, fn *ssa.Function) {
 			for fld := range zeroFields(res) {
 				proven[fld] = true
 			}
+		} else if call, isCall := res.(*ssa.Call); isCall && c13BoolHelper(r, call) != nil {
+			for fld := range zeroFields(res) {
+				proven[fld] = true
+			}
 		} else {
 			n++
-			r.Undecided("C13.R3", fmt.Sprintf("zero-status predicate return %d", n), pos, sf, "result is neither a constant nor a `sum == 0` comparison: "+res.String())
+			r.Undecided("C13.R3", fmt.Sprintf("zero-status predicate return %d", n), pos, sf, "result is neither a constant, a `sum == 0` comparison nor the verdict of a repository helper: "+res.String())
 			continue
 		}
 		n++
@@ -1430,10 +1624,7 @@ func c13PodTemplate(r *Run, key string) {
 		if edsArg == nil {
 			continue
 		}
-		if !seenCtor[ctor] {
-			seenCtor[ctor] = true
-			c13PodTemplateCtor(r, ctor, edsIdx, key)
-		}
+		c13PodTemplateCtor(r, ctor, edsIdx, key, seenCtor)
 		if e.Verb == "Update" {
 			c13PodTemplateSkip(r, e, edsArg, key)
 		}
@@ -1443,7 +1634,25 @@ func c13PodTemplate(r *Run, key string) {
 	}
 }
 
-func c13PodTemplateCtor(r *Run, ctor *ssa.Function, edsIdx int, key string) {
+func c13PodTemplateCtor(r *Run, ctor *ssa.Function, edsIdx int, key string, seen map[*ssa.Function]bool) {
+	for depth := 0; depth < 3; depth++ {
+		inner, innerDs, why := c13WrappedCtor(r, ctor, edsIdx, key)
+		if inner == nil {
+			break
+		}
+		if why != "" {
+			if !seen[ctor] {
+				seen[ctor] = true
+				r.Undecided("C13.R4", "constructor identity", r.Prog.Pos(ctor.Pos()), shortFunc(ctor), why)
+			}
+			return
+		}
+		ctor, edsIdx = inner, innerDs
+	}
+	if seen[ctor] {
+		return
+	}
+	seen[ctor] = true
 	sf := shortFunc(ctor)
 	pos := r.Prog.Pos(ctor.Pos())
 	eds := ctor.Params[edsIdx]
@@ -1505,6 +1714,26 @@ func c13PodTemplateCtor(r *Run, ctor *ssa.Function, edsIdx int, key string) {
 	okH, whyH := true, ""
 	ws, lost := annotationWrites(r.Prog, ctor, func(v ssa.Value) bool { return v == ssa.Value(obj) }, key)
 	for _, w := range ws {
+		// the hash is handed in: at every call of the constructor it is the hash of the template of the
+		// ExtendedDaemonSet handed in with it
+		if hp, isPar := unwrap(w.val).(*ssa.Parameter); isPar && hp.Parent() == ctor {
+			sites := r.Prog.callSitesAll(ctor)
+			if len(sites) == 0 {
+				okH, whyH = false, "the hash is a parameter of a constructor without a static call"
+			}
+			for _, s := range sites {
+				args := s.Common().Args
+				h, why := templateHashSource(r.Prog, args[paramIndex(hp)], 0)
+				if h == nil || h.root != unwrap(args[edsIdx]) || !samePath(h.path, []string{"Spec", "Template"}) {
+					okH = false
+					whyH = "annotation value handed in at " + r.Prog.Pos(s.Pos()) + ": " + why
+					if h != nil {
+						whyH = "annotation value handed in at " + r.Prog.Pos(s.Pos()) + " is " + h.String()
+					}
+				}
+			}
+			continue
+		}
 		h, why := templateHashSource(r.Prog, w.val, 0)
 		if h == nil || h.root != ssa.Value(eds) || !samePath(h.path, []string{"Spec", "Template"}) {
 			okH = false
